@@ -420,6 +420,101 @@ fn gen_seg(rng: &mut Rng) -> ConvCase {
     ConvCase { text, human, nontrivial: !rpc.as_entries.is_empty(), kind, res }
 }
 
+// ---------------------------------------------------------------- API-built segment values, to RPC and back
+
+fn gen_segrt(rng: &mut Rng) -> ConvCase {
+    let n = rng.range(1, 3) as usize;
+    let with_ext = rng.chance(1, 2);
+    let mut seg = SignedPathSegment::empty(*rng.pick(&[0u32, 1_700_000_000, u32::MAX]), *rng.pick(&[0u16, 9, 65535]));
+    let mut has_ext = false;
+    for i in 0..n {
+        let mut e = gen_entry(rng, i);
+        if with_ext && rng.chance(1, 2) {
+            has_ext = true;
+            if rng.chance(1, 2) { e.extensions = vec![1, 2]; } else { e.unsigned_extensions = vec![3]; }
+        }
+        seg.add_entry(e, &key(i), Some(kid_of(i)), &[7u8; 16], 5).unwrap();
+    }
+    let back = seg.clone().into_rpc();
+    let dec = coq_list(back.as_entries.iter().filter_map(|e| e.signed.as_ref()).map(|s| {
+        let d = match cr::HeaderAndBodyInternal::decode(&s.header_and_body[..]) {
+            Err(_) => "None".to_string(),
+            Ok(hb) => match cp::AsEntrySignedBody::decode(&hb.body[..]) {
+                Err(_) => "(Some None)".to_string(),
+                Ok(b) => format!("(Some (Some {}))", coq_rbody(&b)),
+            },
+        };
+        format!("({}, {})", coq_bytes(&s.header_and_body), d)
+    }));
+    let r = std::panic::catch_unwind(AssertUnwindSafe(|| SignedPathSegment::try_from_rpc(back.clone())));
+    let (res, val2, same) = match r {
+        Err(_) => (99, "None".to_string(), false),
+        Ok(Err(e)) => (rerr_code(&e.message), "None".to_string(), false),
+        Ok(Ok(v2)) => (0, format!("(Some {})", coq_segment(&v2)), v2 == seg),
+    };
+    let text = format!("CSegRt (mkSegRt {} {} {} {} {})", coq_segment(&seg), coq_rsegment(&back), dec, res, val2);
+    let human = format!("segrt entries={n} has_extensions={has_ext} result={res} same={same}");
+    ConvCase { text, human, nontrivial: true, kind: if has_ext { "api-value-with-extensions" } else { "api-value" }, res }
+}
+
+// ---------------------------------------------------------------- message-level stream
+
+fn gen_msg(rng: &mut Rng) -> ConvCase {
+    use sciparse::signed_message::DigestAlgorithm as DA;
+    let (alg, algno) = *rng.pick(&[(DA::Sha256, 1u64), (DA::Sha384, 2), (DA::Sha512, 3)]);
+    let k = rng.below(6) as usize;
+    let kid = if rng.chance(1, 4) { None } else { Some(kid_of(k)) };
+    let chunks: Vec<Vec<u8>> = (0..rng.below(4)).map(|_| (0..rng.below(20)).map(|_| rng.below(256) as u8).collect()).collect();
+    let assoc: Vec<u8> = chunks.concat();
+    // the API lets the signer declare any length next to the chunks
+    let declared = if rng.chance(1, 8) { assoc.len() + 1 } else { assoc.len() };
+    let body = cp::SegmentsRequest { src_isd_as: rng.below(100), dst_isd_as: 2 };
+    let m = SignedMessage::sign(&key(k), alg, rng.below(1 << 31) as u32, kid, (declared, chunks.iter().map(|c| c.as_slice())), &body, &()).unwrap();
+    let signed_input = [m.header_and_body.clone(), assoc.clone()].concat();
+    let mut m2 = m.clone();
+    let mut vassoc = assoc.clone();
+    let mut slen = declared;
+    let mut vkey = Some(k);
+    let var = rng.below(9);
+    let kind: &'static str = match var {
+        2 => { if flip(&mut vassoc, rng) { "assoc-bit" } else { "same" } }
+        3 => { slen = declared + *rng.pick(&[1usize, 7]); "supplied-length" }
+        4 => { vkey = if rng.chance(1, 3) { None } else { Some((k + 1) % 6) }; "other-key" }
+        5 => { flip(&mut m2.signature, rng); "signature-bit" }
+        6 => "rechunked",
+        7 => {
+            let mut hb = cr::HeaderAndBodyInternal::decode(&m2.header_and_body[..]).unwrap();
+            let mut hd = cr::Header::decode(&hb.header[..]).unwrap();
+            hd.signature_algorithm = *rng.pick(&[0i32, 1, 2, 3, 9]);
+            hb.header = hd.encode_to_vec();
+            m2.header_and_body = hb.encode_to_vec();
+            "header-algorithm"
+        }
+        8 => { flip(&mut m2.header_and_body, rng); "hb-bit" }
+        _ => "same",
+    };
+    let expect = m2 == m && vkey == Some(k) && slen == declared && vassoc == assoc;
+    let keyv: Vec<p256::ecdsa::VerifyingKey> = (0..6).map(|k| *key(k).verifying_key()).collect();
+    let provider = |_kid: &[u8]| vkey.map(|k| keyv[k]).ok_or(ValidateError::KeyMissing("no key".into()));
+    // the verifier may cut the associated data into other chunks
+    let cut = if var == 6 && !vassoc.is_empty() { rng.below(vassoc.len() as u64) as usize } else { 0 };
+    let vchunks: Vec<&[u8]> = vec![&vassoc[..cut], &vassoc[cut..]];
+    let res = match std::panic::catch_unwind(AssertUnwindSafe(|| m2.validate(&provider, (slen, vchunks.iter().copied())))) {
+        Ok(Ok(_)) => 0, Ok(Err(e)) => verr_code(&e), Err(_) => 99 };
+    let dec = match cr::HeaderAndBodyInternal::decode(&m2.header_and_body[..]) {
+        Err(_) => "None".to_string(),
+        Ok(x) => match cr::Header::decode(&x.header[..]) {
+            Err(_) => "(Some None)".to_string(),
+            Ok(hd) => format!("(Some (Some ({}, {}, {})))", z(hd.signature_algorithm as i64), coq_bytes(&hd.verification_key_id), z(hd.associated_data_length as i64)),
+        },
+    };
+    let text = format!("CMsg (mkMsg {} {} {} {} {} {} {} [({}, {}, {})] {} {})", coq_bytes(&m2.header_and_body), coq_bytes(&m2.signature), dec,
+        coq_bool(p256::ecdsa::Signature::from_der(&m2.signature).is_ok()), coq_opt(vkey.map(|k| k.to_string())), slen, coq_bytes(&vassoc),
+        algno, k, coq_bytes(&signed_input), coq_bool(expect), res);
+    let human = format!("msg digest={algno} kind={kind} assoc_len={} declared={declared} supplied={slen} key={vkey:?} result={res} expect={expect}", assoc.len());
+    ConvCase { text, human, nontrivial: true, kind, res }
+}
+
 // ---------------------------------------------------------------- path conversion stream
 
 fn std_raw(segs: &[usize]) -> Vec<u8> {
@@ -546,15 +641,21 @@ fn main() {
     let mut seen = std::collections::HashSet::new();
     for i in 0..n {
         let (text, human, nontrivial) = match i % 8 {
-            0..=3 => {
+            0..=2 => {
                 // the first 16 signing cases walk through every mutation kind once
-                let forced = if i / 8 * 4 + i % 8 < 16 { Some(i / 8 * 4 + i % 8) } else { None };
+                let forced = if i / 8 * 3 + i % 8 < 16 { Some(i / 8 * 3 + i % 8) } else { None };
                 let c = gen_sign(&mut rng, forced);
                 sum.count(&format!("sign.kind.{}", c.kind)); sum.count(&format!("sign.mode.{}", c.mode));
                 for r in &c.results { sum.count(&format!("sign.result.{r}")); }
                 (c.text, c.human, c.nontrivial)
             }
-            4 | 5 => { let c = gen_seg(&mut rng); sum.count(&format!("seg.kind.{}", c.kind)); sum.count(&format!("seg.result.{}", c.res)); (c.text, c.human, c.nontrivial) }
+            4 => { let c = gen_seg(&mut rng); sum.count(&format!("seg.kind.{}", c.kind)); sum.count(&format!("seg.result.{}", c.res)); (c.text, c.human, c.nontrivial) }
+            3 => { let c = gen_msg(&mut rng); sum.count(&format!("msg.kind.{}", c.kind)); sum.count(&format!("msg.result.{}", c.res)); (c.text, c.human, c.nontrivial) }
+            5 => if (i / 8) % 2 == 0 {
+                let c = gen_segrt(&mut rng); sum.count(&format!("segrt.kind.{}", c.kind)); sum.count(&format!("segrt.result.{}", c.res)); (c.text, c.human, c.nontrivial)
+            } else {
+                let c = gen_seg(&mut rng); sum.count(&format!("seg.kind.{}", c.kind)); sum.count(&format!("seg.result.{}", c.res)); (c.text, c.human, c.nontrivial)
+            },
             _ => { let c = gen_path(&mut rng); sum.count(&format!("path.result.{}", c.res)); (c.text, c.human, c.nontrivial) }
         };
         if seen.insert(text.clone()) && nontrivial { sum.count("distinct_nontrivial"); }
